@@ -1066,6 +1066,37 @@ fn export<'tcx>(tcx: TyCtxt<'tcx>) -> String {
     }
     j.arr_end();
 
+    // ---------------- `use` items: (module, local name) -> resolved def path (alias resolution)
+    j.key("uses").arr_begin();
+    for id in items.free_items() {
+        let item = tcx.hir_item(id);
+        if let rustc_hir::ItemKind::Use(path, rustc_hir::UseKind::Single(ident)) = item.kind {
+            let module = tcx.parent_module_from_def_id(item.owner_id.def_id).to_def_id();
+            let mut targets: Vec<String> = Vec::new();
+            for r in [path.res.type_ns, path.res.value_ns, path.res.macro_ns].into_iter().flatten() {
+                if let Some(d) = r.opt_def_id() {
+                    let p = dpath(tcx, d);
+                    if !targets.contains(&p) {
+                        targets.push(p);
+                    }
+                }
+            }
+            if targets.is_empty() {
+                continue;
+            }
+            j.obj_begin();
+            j.key("module").str(&dpath(tcx, module));
+            j.key("name").str(ident.as_str());
+            j.key("targets").arr_begin();
+            for t in &targets {
+                j.str(t);
+            }
+            j.arr_end();
+            j.obj_end();
+        }
+    }
+    j.arr_end();
+
     j.obj_end();
     j.finish()
 }
